@@ -170,6 +170,31 @@ func propC20(w *World, r *Report, tier string) {
 				if st, ok := ins.(*ssa.Store); ok && fieldAddr(st.Addr, recv, "offset") {
 					r.Fail("alloc.bounds", SSAFuncName(fn), "direct store", st.Pos(), "offset is stored directly (not through a reducing helper)", nil)
 				}
+				// Go's % keeps the sign of the dividend: the value handed to setOffset must not
+				// be able to go negative.  A parameter of the exported method is non-negative by
+				// the stated premise; a difference is not.
+				if c, ok := ins.(*ssa.Call); ok && c.Call.StaticCallee() != nil && c.Call.StaticCallee().Name() == "setOffset" && len(c.Call.Args) == 2 {
+					r.Site("alloc.bounds")
+					good := false
+					switch a := c.Call.Args[1].(type) {
+					case *ssa.Parameter:
+						good = true
+					case *ssa.Const:
+						good = a.Int64() >= 0
+					case *ssa.BinOp:
+						// x % valueRange and x & mask of non-negative operands stay non-negative
+						if a.Op == token.REM || a.Op == token.AND {
+							if _, isParam := a.X.(*ssa.Parameter); isParam {
+								good = true
+							}
+						}
+					}
+					if good {
+						r.OK("alloc.bounds")
+					} else {
+						r.Fail("alloc.bounds", SSAFuncName(fn), "setOffset argument", c.Pos(), "the value handed to setOffset ("+exprText(c.Call.Args[1])+") can be negative; x % valueRange keeps the sign of x, so the offset can leave [0, valueRange) and the identifier the configured bounds", nil)
+					}
+				}
 			}
 		}
 	}
@@ -469,5 +494,5 @@ func propC20(w *World, r *Report, tier string) {
 		}
 	}
 	r.Expect("alloc.fresh", 2)
-	r.Expect("alloc.bounds", 4)
+	r.Expect("alloc.bounds", 5)
 }
